@@ -50,3 +50,21 @@ Theorem count_model_spec l1 maxKB : 16 <= maxKB -> maxKB <= 8192 ->
   forall start stop, stop <= MAX64 ->
   N.of_nat (length (sieve_model l1 maxKB start stop)) = count_primes_spec start stop.
 Proof. intros K1 K2 start stop Hs. rewrite (sieve_model_spec l1 maxKB K1 K2 start stop Hs). reflexivity. Qed.
+
+(** nth_prime with every source of primes taken from the model kernel *)
+From PS Require Import Model.NthPrime Proofs.NthPrimeP.
+From Coq Require Import ZArith.
+Definition cnt_model (l1 maxKB a b : N) : N := N.of_nat (length (sieve_model l1 maxKB a b)).
+Definition fwd_model (l1 maxKB s k : N) : option N := nth_error (sieve_model l1 maxKB s MAX64) (N.to_nat (k - 1)).
+Definition bwd_model (l1 maxKB s k : N) : N := nth (N.to_nat (k - 1)) (rev (sieve_model l1 maxKB 0 s)) 0.
+
+Theorem nth_prime_model l1 maxKB : 16 <= maxKB -> maxKB <= 8192 ->
+  forall primePiApprox nthPrimeApprox, (forall x, nthPrimeApprox x <= MAX64) ->
+  forall n start, start <= MAX64 -> (Z.abs n <= Z.of_N max_n)%Z ->
+  nth_prime primePiApprox nthPrimeApprox (cnt_model l1 maxKB) (fwd_model l1 maxKB) (bwd_model l1 maxKB) n start = of_opt (nth_spec n start).
+Proof.
+  intros K1 K2 ppa npa Hn n start Hs Habs. apply nth_prime_correct; [exact Hn| | | |exact Hs|exact Habs].
+  - intros a b Hb. unfold cnt_model. rewrite (sieve_model_spec l1 maxKB K1 K2 a b Hb). reflexivity.
+  - intros s k Hs' Hk. unfold fwd_model. rewrite (sieve_model_spec l1 maxKB K1 K2 s MAX64 (N.le_refl _)). reflexivity.
+  - intros s k Hs' Hk. unfold bwd_model. rewrite (sieve_model_spec l1 maxKB K1 K2 0 s Hs'). reflexivity.
+Qed.
